@@ -136,6 +136,56 @@ package cors
 //@   loop 0 invariant icfg.allowedReqHdrs === old(icfg.allowedReqHdrs) && icfg.acah === old(icfg.acah) && icfg.credentialed == old(icfg.credentialed)
 //@   loop 0 decreases len(names) - rangeindex
 
+//@ func internalConfig.validateResponseHeaders
+//@   props C04 C05 C06 C08 C15 C17
+//@   frozen E! F!util_Set
+//@   uses mem_empty
+//@   requires icfg != nil && icfg > 0
+//@   assigns icfg.aceh
+//@   assigns heap("E!Str")
+//@   ensures C04.response_headers: result == nil ==> (forall j :: 0 <= j && j < len(names) ==> OkResHdr(old(names[j]), icfg.credentialed))
+//@   ensures C05.response_headers_accept: (forall j :: 0 <= j && j < len(names) ==> OkResHdr(old(names[j]), icfg.credentialed)) ==> result == nil
+//@   ensures C15.expose_all_is_membership: result == nil && (exists j :: 0 <= j && j < len(names) && old(names[j]) == "*") ==> icfg.aceh == "*"
+//@   ensures icfg.credentialed == old(icfg.credentialed)
+//@   onappend C05.response_header_error: (dyntype(e, "*cfgerrors.IncompatibleWildcardResponseHeaderNameError") && names[rangeindex+1] == "*" && icfg.credentialed) || (dyntype(e, "*cfgerrors.UnacceptableHeaderNameError") && payload(e, "*cfgerrors.UnacceptableHeaderNameError") != nil && payload(e, "*cfgerrors.UnacceptableHeaderNameError").Value === names[rangeindex+1] && payload(e, "*cfgerrors.UnacceptableHeaderNameError").Type == "response" && (payload(e, "*cfgerrors.UnacceptableHeaderNameError").Reason == "invalid" || payload(e, "*cfgerrors.UnacceptableHeaderNameError").Reason == "forbidden" || payload(e, "*cfgerrors.UnacceptableHeaderNameError").Reason == "prohibited"))
+//@   loop 0 invariant -1 <= rangeindex && rangeindex < len(names)
+//@   loop 0 invariant (len(errs) == 0) == (forall j :: 0 <= j && j <= rangeindex ==> OkResHdr(old(names[j]), icfg.credentialed))
+//@   loop 0 invariant forall k :: 0 <= k && k < len(errs) ==> errs[k] != nil
+//@   loop 0 invariant exposeAllResHdrs == (exists j :: 0 <= j && j <= rangeindex && old(names[j]) == "*")
+//@   loop 0 invariant SetInv(exposedHeaders) && (arr(exposedHeaders.elems) == 0 || isfresh(arr(exposedHeaders.elems)))
+//@   loop 0 invariant forall j :: 0 <= j && j < len(names) ==> names[j] === old(names[j])
+//@   loop 0 invariant icfg.aceh === old(icfg.aceh) && icfg.credentialed == old(icfg.credentialed)
+//@   loop 0 decreases len(names) - rangeindex
+
+//@ func internalConfig.validateOrigins
+//@   props C01 C04 C05 C06 C08 C15 C17
+//@   frozen E!Str E!Int F!util_Set
+//@   requires icfg != nil && icfg > 0
+//@   requires icfg.tree.root.schemes == nil && icfg.tree.root.children == nil
+//@   assigns icfg.tree
+//@   assigns heap("F!origins_node!suf")
+//@   assigns heap("F!origins_node!edges")
+//@   assigns heap("F!origins_node!children")
+//@   assigns heap("F!origins_node!schemes")
+//@   assigns heap("F!origins_node!ports")
+//@   assigns heap("E!Int")
+//@   assigns heap("E!Slice")
+//@   ensures C04.origins_nonempty: result == nil ==> len(patterns) > 0
+//@   ensures C04.origins: result == nil ==> (forall j :: 0 <= j && j < len(patterns) ==> OkOrigin(icfg, patterns[j]))
+//@   ensures C05.origins_accept: len(patterns) > 0 && (forall j :: 0 <= j && j < len(patterns) ==> OkOrigin(icfg, patterns[j])) ==> result == nil
+//@   ensures C15.allow_all_is_membership: result == nil ==> ((icfg.tree.root.schemes == nil && icfg.tree.root.children == nil) == (exists j :: 0 <= j && j < len(patterns) && patterns[j] == "*"))
+//@   ensures C05.origins_missing_error: len(patterns) == 0 ==> dyntype(result, "*cfgerrors.UnacceptableOriginPatternError") && payload(result, "*cfgerrors.UnacceptableOriginPatternError") != nil && payload(result, "*cfgerrors.UnacceptableOriginPatternError").Reason == "missing"
+//@   ensures icfg.credentialed == old(icfg.credentialed) && icfg.privateNetworkAccess == old(icfg.privateNetworkAccess) && icfg.privateNetworkAccessNoCors == old(icfg.privateNetworkAccessNoCors)
+//@   onappend C05.origin_error: e != nil && ((dyntype(e, "*cfgerrors.UnacceptableOriginPatternError") && payload(e, "*cfgerrors.UnacceptableOriginPatternError").Value === patterns[rangeindex+1]) || (dyntype(e, "*cfgerrors.IncompatibleOriginPatternError") && payload(e, "*cfgerrors.IncompatibleOriginPatternError") != nil && (patterns[rangeindex+1] == "*" ? payload(e, "*cfgerrors.IncompatibleOriginPatternError").Value == "*" : payload(e, "*cfgerrors.IncompatibleOriginPatternError").Value === patterns[rangeindex+1]) && ((payload(e, "*cfgerrors.IncompatibleOriginPatternError").Reason == "credentialed" && icfg.credentialed) || (payload(e, "*cfgerrors.IncompatibleOriginPatternError").Reason == "pna" && PNA(icfg)) || (payload(e, "*cfgerrors.IncompatibleOriginPatternError").Reason == "psl" && patterns[rangeindex+1] != "*" && !icfg.subsOfPublicSuffixes))))
+//@   loop 0 invariant -1 <= rangeindex && rangeindex < len(patterns)
+//@   loop 0 invariant a1: (len(errs) == 0) ==> (forall j :: 0 <= j && j <= rangeindex ==> OkOrigin(icfg, patterns[j]))
+//@   loop 0 invariant a2: (forall j :: 0 <= j && j <= rangeindex ==> OkOrigin(icfg, patterns[j])) ==> (len(errs) == 0)
+//@   loop 0 invariant forall k :: 0 <= k && k < len(errs) ==> errs[k] != nil
+//@   loop 0 invariant allowAnyOrigin == (exists j :: 0 <= j && j <= rangeindex && patterns[j] == "*")
+//@   loop 0 invariant (len(errs) == 0 && !allowAnyOrigin && rangeindex >= 0) ==> !(tree.root.schemes == nil && tree.root.children == nil)
+//@   loop 0 invariant icfg.tree.root.schemes == nil && icfg.tree.root.children == nil
+//@   loop 0 decreases len(patterns) - rangeindex
+
 //@ func newInternalConfig
 //@   props C04 C05 C06 C08 C09 C15 C17
 //@   trusted TEMPORARY until L6 (validators) is under contract
